@@ -78,9 +78,27 @@ def main():
     sh("git -C %s apply %s" % (WT, patch))
     touched = sorted({"./" + os.path.dirname(l[6:]) for l in open(patch) if l.startswith("+++ b/")})
     extra = [p for p in ("./chain", "./consensus/...", "./mempool", "./syncer") if p.split("/")[1] in " ".join(touched) or True]
-    test_cmd = "%s %s -count=1 %s" % (BK, WT, " ".join(sorted(set(touched + extra))))
-    r = sh(test_cmd)
-    res["existing_tests_with_change"] = "PASS" if r.returncode == 0 else "FAIL"
+    # packages that build without package contract are tested natively (the patched zerolog of the
+    # build kit changes two logging tests of package types); everything else through the build kit
+    native_env = "cd %s && GOFLAGS=-mod=mod GOPROXY=off GOSUMDB=off " % WT
+    ok_all, cmds = True, []
+    for pkg in sorted(set(touched)):
+        c = native_env + "go test -count=1 %s" % pkg
+        r = sh(c)
+        if r.returncode != 0 and ("build failed" in (r.stdout + r.stderr) or "lualib" in (r.stdout + r.stderr) or "luajit" in (r.stdout + r.stderr).lower()):
+            c = "%s %s -count=1 %s" % (BK, WT, pkg)
+            r = sh(c)
+        cmds.append(c)
+        ok_all = ok_all and r.returncode == 0
+        if r.returncode != 0:
+            break
+    if ok_all:
+        c = "%s %s -count=1 %s" % (BK, WT, " ".join(sorted(set(extra))))
+        r = sh(c)
+        cmds.append(c)
+        ok_all = r.returncode == 0
+    test_cmd = " ; ".join(cmds)
+    res["existing_tests_with_change"] = "PASS" if ok_all else "FAIL"
     res["existing_tests_cmd"] = test_cmd
     tail_tests = "\n".join(l for l in (r.stdout + r.stderr).splitlines() if not l.startswith("{"))[-800:]
     sh("git -C %s checkout -q -- . && git -C %s clean -fdq" % (WT, WT))
